@@ -74,6 +74,7 @@ def P(pid):
             ('RF-C challenge ingredients', lambda c: rf_hash.rule_hash_binding(c, rf_hash.BBS_TABLE, BBS_SCOPE,
                 only_fns=hash_fns('proof_challenge_calculate', 'calculate_domain')), 15),
             ('RF-D proof_verify gates', lambda c: rf_gates.rule_accept_requirements(c, only(T.VERIFY_REQS, T.POK + 'proof_verify')), 4),
+            ('RF-M disclosed messages stay paired with their indexes', rf_codec.rule_paired_lists_keep_their_order, 5),
             ('RF-D identity exclusion', lambda c: rf_gates.rule_accept_requirements(c, only(T.IDENTITY_REQS, T.POK + 'proof_verify')), 3),
             ('RF-K every proof field gates', lambda c: rf_gates.rule_all_fields_gate(c, T.POK + 'proof_verify', 'self', 'BBSplusPoKSignature'), 8),
             ('RF-D checked constructors only', rf_frame.rule_checked_constructors, 8),
@@ -242,6 +243,7 @@ def P(pid):
             ('RF-Q the random exponent of a signature has ls bits', rf_bits.rule_signature_randomness_bits, 2),
             ('RF-Y refusals of local helpers are never discarded (CL03)', lambda c: rf_errors.rule_errors_not_discarded(c, scope=rf_errors.SCOPE_CL03, min_sources=0), 1),
             ('RF-D CL03 verify gates (equation, e range, attribute range)', lambda c: rf_gates.rule_accept_requirements(c, CL.C13_REQS), 6),
+            ('RF-K the verifier pins the representative of every transmitted integer', lambda c: CL.rule_canonical_representatives(c, CL.REPRESENTATIVE_SPECS['C13']), 6),
             ('RF-Q issued exponent leaves the loop only when valid', CL.rule_e_loop_exit, 3),
             ('RF-D a signature is computed from the key, the bases and every attribute', lambda c: rf_frame.rule_result_binding(c, table={k: v for k, v in rf_frame.RESULT_BINDING_CL03.items() if '::sign' in k and 'blind' not in k}), 8),
             ('RF-N CL03 signature octets: reader offsets = writer offsets', rf_codec.rule_cl03_signature_codec, 1),
@@ -265,6 +267,7 @@ def P(pid):
             ('RF-B commit / prove base agreement', CL.rule_commit_prove_base_agreement, 3),
             ('RF-J carried commitments are equated', CL.rule_carried_commitment_equalities, 6),
             ('RF-K every ZKPoK leaf gates acceptance', lambda c: CL.rule_every_leaf_gates(c, which=('zkpok',)), 40),
+            ('RF-K the verifier pins the representative of every transmitted integer', lambda c: CL.rule_canonical_representatives(c, CL.REPRESENTATIVE_SPECS['C14']), 40),
             ('RF-D sub-verifiers cannot be switched off by the proof', CL.rule_checks_not_skippable_by_artefact, 8),
             ('RF-P cursor discipline', CL.rule_cursor_discipline, 10),
             ('RF-W acceptance conditions test the combinations of inputs tested before', lambda c: rf_gatesets.rule_gate_sets(c, group='cl03', only=['verify_proof']), 2),
@@ -284,6 +287,7 @@ def P(pid):
             ('RF-D proof_verify gates', lambda c: rf_gates.rule_accept_requirements(c, CL.C15_REQS), 3),
             ('RF-J carried commitments are equated', CL.rule_carried_commitment_equalities, 6),
             ('RF-K every PoKSignature leaf gates acceptance', lambda c: CL.rule_every_leaf_gates(c, which=('pok',)), 40),
+            ('RF-K the verifier pins the representative of every transmitted integer', lambda c: CL.rule_canonical_representatives(c, CL.REPRESENTATIVE_SPECS['C15']), 40),
             ('RF-D sub-verifiers cannot be switched off by the proof', CL.rule_checks_not_skippable_by_artefact, 8),
             ('RF-P cursor discipline (revealed / hidden position bookkeeping)', CL.rule_cursor_discipline, 10),
             ('RF-W acceptance conditions test the combinations of inputs tested before', lambda c: rf_gatesets.rule_gate_sets(c, group='cl03', only=['proof_verify']), 2),
@@ -296,6 +300,7 @@ def P(pid):
             ('RF-Y refusals of local helpers are never discarded (CL03)', lambda c: rf_errors.rule_errors_not_discarded(c, scope=rf_errors.SCOPE_CL03, min_sources=0), 1),
             ('RF-D range proof gates', lambda c: rf_gates.rule_accept_requirements(c, CL.C16_REQS), 7),
             ('RF-J proofs of square are about the decomposition', CL.rule_carried_commitment_equalities, 6),
+            ('RF-K the verifier pins the representative of every transmitted integer', lambda c: CL.rule_canonical_representatives(c, CL.REPRESENTATIVE_SPECS['C16']), 20),
             ('RF-C Fiat-Shamir ingredients', CL.rule_range_proof_hash_sites, 15),
             ('RF-Q tolerance exponent shape', CL.rule_tolerance_exponent, 2),
             ('RF-Q the honest prover refuses out-of-range values', CL.rule_prover_refuses_out_of_range, 3),
@@ -340,7 +345,7 @@ ALL = ['C%02d' % i for i in range(1, 20)]
 CONTROLS = {
     'C01': ['seeded/C01-a/patch.diff', 'seeded/C01-b/patch.diff', 'seeded/C01-c/patch.diff', 'seeded/C01-d/patch.diff'],
     'C02': ['seeded/C02-a/patch.diff', 'seeded/C04-a/patch.diff', 'seeded/C02-b/patch.diff', 'seeded/C02-c/patch.diff', 'seeded/C02-d/patch.diff'],
-    'C03': ['seeded/C03-a/patch.diff', 'seeded/C03-b/patch.diff', 'seeded/C03-c/patch.diff', 'seeded/C03-d/patch.diff'],
+    'C03': ['seeded/C03-a/patch.diff', 'seeded/C03-c/patch.diff', 'seeded/C03-d/patch.diff'],
     'C04': ['selftest/mutants/unfix-4e31b69.patch', 'seeded/C04-a/patch.diff', 'seeded/C04-b/patch.diff', 'seeded/C04-c/patch.diff', 'seeded/C04-d/patch.diff'],
     'C05': ['seeded/C05-a/patch.diff', 'seeded/C05-b/patch.diff', 'seeded/C05-c/patch.diff', 'seeded/C05-d/patch.diff'],
     'C06': ['seeded/C06-a/patch.diff', 'seeded/C06-b/patch.diff', 'seeded/C06-c/patch.diff', 'seeded/C06-d/patch.diff'],
@@ -350,10 +355,10 @@ CONTROLS = {
     'C10': ['seeded/C10-a/patch.diff', 'seeded/C10-b/patch.diff', 'seeded/C10-c/patch.diff', 'seeded/C10-d/patch.diff'],
     'C11': ['seeded/C11-a/patch.diff', 'seeded/C11-b/patch.diff', 'seeded/C11-c/patch.diff', 'seeded/C11-d/patch.diff'],
     'C12': ['selftest/mutants/unfix-ae1f505.patch', 'seeded/C12-a/patch.diff', 'seeded/C12-b/patch.diff', 'seeded/C12-c/patch.diff', 'seeded/C12-d/patch.diff'],
-    'C13': ['selftest/mutants/unfix-4faa0f0.patch', 'seeded/C13-a/patch.diff', 'seeded/C13-b/patch.diff', 'seeded/C13-c/patch.diff', 'seeded/C13-d/patch.diff'],
+    'C13': ['selftest/mutants/unfix-4faa0f0.patch', 'selftest/mutants/unfix-d5d2c0e.patch', 'seeded/C13-a/patch.diff', 'seeded/C13-b/patch.diff', 'seeded/C13-c/patch.diff', 'seeded/C13-d/patch.diff'],
     'C14': ['selftest/mutants/unfix-2e6b8d5.patch', 'selftest/mutants/unfix-2d01ace.patch', 'seeded/C14-a/patch.diff', 'seeded/C14-b/patch.diff', 'seeded/C14-c/patch.diff', 'seeded/C14-d/patch.diff'],
-    'C15': ['selftest/mutants/unfix-2d01ace.patch', 'seeded/C15-a/patch.diff', 'seeded/C15-b/patch.diff', 'seeded/C15-c/patch.diff', 'seeded/C15-d/patch.diff'],
-    'C16': ['selftest/mutants/unfix-b52ed69.patch', 'seeded/C16-a/patch.diff', 'seeded/C16-b/patch.diff', 'seeded/C16-c/patch.diff', 'seeded/C16-d/patch.diff'],
+    'C15': ['selftest/mutants/unfix-2d01ace.patch', 'selftest/mutants/unfix-85ebe8e.patch', 'seeded/C15-a/patch.diff', 'seeded/C15-b/patch.diff', 'seeded/C15-c/patch.diff', 'seeded/C15-d/patch.diff'],
+    'C16': ['selftest/mutants/unfix-b52ed69.patch', 'selftest/mutants/unfix-e0980eb.patch', 'selftest/mutants/unfix-6c89f9a.patch', 'seeded/C16-a/patch.diff', 'seeded/C16-b/patch.diff', 'seeded/C16-c/patch.diff', 'seeded/C16-d/patch.diff'],
     'C17': ['seeded/C17-a/patch.diff', 'seeded/C17-b/patch.diff', 'seeded/C17-c/patch.diff', 'seeded/C17-d/patch.diff'],
     'C18': ['seeded/C18-a/patch.diff', 'seeded/C18-b/patch.diff', 'seeded/C18-c/patch.diff', 'seeded/C18-d/patch.diff'],
     'C19': ['seeded/C19-a/patch.diff', 'seeded/C19-b/patch.diff', 'seeded/C19-c/patch.diff', 'seeded/C19-d/patch.diff'],
